@@ -535,6 +535,42 @@ func readerReuse(c *dctx, docs []docFile, dir string) {
 	if len(pool) == 0 {
 		return
 	}
+	// the same extraction with header/footer exclusion repeated on fresh extractors: when a
+	// running line and a page number share a marginal zone, nothing but the bytes and the
+	// options may decide what is removed (not the iteration order of a map)
+	for di, d := range pool {
+		if d.Desc != "PDF with a running header, footer and page numbers" {
+			continue
+		}
+		id := fmt.Sprintf("repeat-exclusion:%d", di)
+		if !c.Want(id) {
+			continue
+		}
+		for _, op := range []string{"exclhf", "chunks-json"} {
+			first := ""
+			for k := 0; k < 12; k++ {
+				var got string
+				if op == "exclhf" {
+					got = doOp(d.Path, op)
+				} else {
+					cc, _, err := tabula.Open(d.Path).ExcludeHeadersAndFooters().Chunks()
+					if err != nil {
+						got = "ERR: " + err.Error()
+					} else {
+						got, _ = cc.ToJSON()
+					}
+				}
+				c.Count("exclusion_repeats_compared", 1)
+				if k == 0 {
+					first = got
+				} else if got != first {
+					c.Fail("", "repeat-exclusion/"+op, id, fmt.Sprintf("%s of %s (%s) with header/footer exclusion: repetition %d on a fresh extractor differs from the first (%d vs %d bytes)", op, filepath.Base(d.Path), d.Desc, k, len(got), len(first)), nil)
+					break
+				}
+			}
+		}
+		c.Case("repeat-exclusion|"+filepath.Base(d.Path), true)
+	}
 	// every non-PDF document once with a fixed alternation: the model, a rendering,
 	// the model again … (a rendering must not leave its adaptations in the parsed state)
 	nFixed := 0
